@@ -5,6 +5,7 @@ import Mathlib.Algebra.Order.BigOperators.Group.List
 import Mathlib.Tactic.Ring
 import Mathlib.Tactic.Linarith
 import Mathlib.Tactic.FieldSimp
+import Mathlib.Tactic.Positivity
 /-!
 Helper lemmas for C07 (model `BppModel/VecTools.lean` read at `ℝ`).
 -/
@@ -442,5 +443,97 @@ theorem median_spec' (v : List ℝ) (hv : v ≠ []) :
       rw [(sortVals_perm v).length_eq]; omega
     obtain ⟨m, hm, hmed⟩ := median_sorted_case (sortVals v) (sortedBy_sortVals v) hn
     exact ⟨m, sortVals v, hm, isMedian_perm (sortVals_perm v) m hmed, sortVals_perm v, fun _ => sortedBy_sortVals v⟩
+
+/-! ### Cauchy–Schwarz and the correlation -/
+
+theorem cs_step (x y S A B : ℝ) (hA : 0 ≤ A) (hB : 0 ≤ B) (h : S ^ 2 ≤ A * B) :
+    (x * y + S) ^ 2 ≤ (x ^ 2 + A) * (y ^ 2 + B) := by
+  have h0 : 0 ≤ x ^ 2 * B + y ^ 2 * A := by positivity
+  have hsq : (2 * x * y * S) ^ 2 ≤ (x ^ 2 * B + y ^ 2 * A) ^ 2 := by
+    nlinarith [sq_nonneg (x ^ 2 * B - y ^ 2 * A), mul_nonneg (sq_nonneg (x * y)) (sub_nonneg.mpr h)]
+  have := abs_le_of_sq_le_sq' hsq h0
+  nlinarith [this.2]
+
+/-- Cauchy–Schwarz for lists -/
+theorem cauchy_schwarz_list (a b : List ℝ) :
+    (List.zipWith (· * ·) a b).sum ^ 2 ≤ (a.map (· ^ 2)).sum * (b.map (· ^ 2)).sum := by
+  induction a generalizing b with
+  | nil => simp
+  | cons x xs ih =>
+    cases b with
+    | nil =>
+      simp only [List.zipWith_nil_right, List.sum_nil, List.map_nil, mul_zero]; norm_num
+    | cons y ys =>
+      simp only [List.zipWith_cons_cons, List.sum_cons, List.map_cons]
+      apply cs_step _ _ _ _ _ _ _ (ih ys)
+      · exact List.sum_nonneg (by intro z hz; simp only [List.mem_map] at hz; obtain ⟨w, -, rfl⟩ := hz; positivity)
+      · exact List.sum_nonneg (by intro z hz; simp only [List.mem_map] at hz; obtain ⟨w, -, rfl⟩ := hz; positivity)
+
+theorem sum_sq_pos_of_ne (a : List ℝ) (c : ℝ) (h : ∃ x ∈ a, x ≠ c) : 0 < (a.map (fun x => (x - c) ^ 2)).sum := by
+  obtain ⟨x, hx, hne⟩ := h
+  induction a with
+  | nil => simp at hx
+  | cons y ys ih =>
+    simp only [List.map_cons, List.sum_cons]
+    have hnn : 0 ≤ (ys.map (fun x => (x - c) ^ 2)).sum :=
+      List.sum_nonneg (by intro z hz; simp only [List.mem_map] at hz; obtain ⟨w, -, rfl⟩ := hz; positivity)
+    simp only [List.mem_cons] at hx
+    rcases hx with rfl | hx
+    · have : 0 < (x - c) ^ 2 := by
+        have : x - c ≠ 0 := sub_ne_zero.mpr hne
+        positivity
+      linarith
+    · have := ih hx
+      have : 0 ≤ (y - c) ^ 2 := by positivity
+      linarith
+
+theorem exists_ne_of_nonconst (a : List ℝ) (c : ℝ) (h : ∃ x ∈ a, ∃ y ∈ a, x ≠ y) : ∃ x ∈ a, x ≠ c := by
+  obtain ⟨x, hx, y, hy, hne⟩ := h
+  by_cases hxc : x = c
+  · exact ⟨y, hy, fun hyc => hne (hxc.trans hyc.symm)⟩
+  · exact ⟨x, hx, hxc⟩
+
+/-- the three centred sums behind cov/var -/
+theorem centred_sums (a b : List ℝ) (ca cb : ℝ) :
+    (List.zipWith (fun x y => (x - ca) * (y - cb)) a b).sum ^ 2 ≤
+      (a.map (fun x => (x - ca) ^ 2)).sum * (b.map (fun x => (x - cb) ^ 2)).sum := by
+  have := cauchy_schwarz_list (a.map (· - ca)) (b.map (· - cb))
+  rw [List.zipWith_map, List.map_map, List.map_map] at this
+  exact this
+
+theorem zipWith_self_sq (a : List ℝ) (c : ℝ) :
+    List.zipWith (fun x y => (x - c) * (y - c)) a a = a.map (fun x => (x - c) ^ 2) := by
+  induction a with
+  | nil => rfl
+  | cons x xs ih => simp [sq]
+
+theorem cor_sq_le_one' (v1 v2 : List ℝ) (h : v1.length = v2.length) (hn : 2 ≤ v1.length)
+    (h1 : ∃ x ∈ v1, ∃ y ∈ v1, x ≠ y) (h2 : ∃ x ∈ v2, ∃ y ∈ v2, x ≠ y) :
+    ∃ r, cor v1 v2 = .ok r ∧ r ^ 2 ≤ 1 := by
+  have hn2 : 2 ≤ v2.length := h ▸ hn
+  unfold cor sd var
+  rw [cov_eq v1 v2 true h (by simpa using hn), cov_eq v1 v1 true rfl (by simpa using hn),
+    cov_eq v2 v2 true rfl (by simpa using hn2)]
+  refine ⟨_, rfl, ?_⟩
+  simp only [specCov_eq, if_true, zipWith_self_sq, sqrt_eq]
+  set m1 := v1.sum / (v1.length : ℝ)
+  set m2 := v2.sum / (v2.length : ℝ)
+  have hcs := centred_sums v1 v2 m1 m2
+  have hA := sum_sq_pos_of_ne v1 m1 (exists_ne_of_nonconst v1 m1 h1)
+  have hB := sum_sq_pos_of_ne v2 m2 (exists_ne_of_nonconst v2 m2 h2)
+  set S := (List.zipWith (fun x y => (x - m1) * (y - m2)) v1 v2).sum
+  set A := (v1.map (fun x => (x - m1) ^ 2)).sum
+  set B := (v2.map (fun x => (x - m2) ^ 2)).sum
+  have hD : (0:ℝ) < (v1.length : ℝ) - 1 := by
+    have : (2:ℝ) ≤ (v1.length : ℝ) := by exact_mod_cast hn
+    linarith
+  have hD2 : (v2.length : ℝ) - 1 = (v1.length : ℝ) - 1 := by rw [h]
+  rw [hD2]
+  set D := (v1.length : ℝ) - 1
+  have hvA : 0 < A / D := div_pos hA hD
+  have hvB : 0 < B / D := div_pos hB hD
+  rw [div_pow, mul_pow, Real.sq_sqrt hvA.le, Real.sq_sqrt hvB.le, div_le_one (mul_pos hvA hvB)]
+  rw [div_pow, div_mul_div_comm, ← sq]
+  exact div_le_div_of_nonneg_right hcs (by positivity)
 
 end Bpp.VecTools
